@@ -6,7 +6,7 @@ import time
 
 VERIF = os.path.dirname(os.path.dirname(os.path.abspath(__file__)))
 KANI_DIR = os.path.join(VERIF, "kani")
-ENV = dict(os.environ, CARGO_NET_OFFLINE="true", RUST_BACKTRACE="0")
+ENV = dict(os.environ, CARGO_NET_OFFLINE="true", RUST_BACKTRACE="0", CARGO_TARGET_DIR=os.path.join(KANI_DIR, "target"))
 
 _built = {}
 
